@@ -5,7 +5,8 @@
    [step cfg s t c] = thread t performs its next atomic operation (c = the operation its client
    starts if t is idle).  [reach cfg s] = s is reachable by SOME schedule, i.e. the theorems hold
    for every number of threads [nthr cfg], every pool size [psize cfg], every task table
-   [dep0/dep1 cfg], every initial cursor, and every schedule whose clients obey the interface
+   [dep0/xdep1 cfg] (stored through set_dependency / set_extra_dependency; [dedup cfg = true] is the
+   code as it is now, [false] the pinned commit), every initial cursor, and every schedule whose clients obey the interface
    contract [wf_choice] (free only a slot you hold, unlock only what you locked). *)
 From Coq Require Import NArith ZArith List Bool Arith Permutation.
 From CMI Require Import Cxx.C08_Defs Cxx.C08_Proofs.
@@ -180,24 +181,35 @@ Proof. exact idle_thread_locks_in_view. Qed.
 Print Assumptions C08_idle_thread_locks_in_view.
 
 (* when none of a task's resources is held by anyone the task can be handed out: a get_task /
-   try_get_task that finds the queue unlocked, the queue containing a task whose (distinct) locks
-   are all free, removes a task for its caller when the caller runs on its own ... *)
+   try_get_task that finds the queue unlocked, the queue containing a task whose locks are all free,
+   removes a task for its caller when the caller runs on its own.  For the code as it is now
+   (set_extra_dependency drops a second dependency equal to the first) no side condition: *)
 Theorem C08_free_resources_imply_handout : forall cfg s t q,
+  dedup cfg = true -> reach cfg s -> t < nthr cfg ->
+  tpc (thr s t) = Q_lock q \/ tpc (thr s t) = Q_trylock q ->
+  qlk (queues s q) = None ->
+  (exists j, j < length (qitems (queues s q)) /\ all_free cfg s (nth j (qitems (queues s q)) 0)) ->
+  eventually_handed cfg s t q.
+Proof. exact free_resources_imply_handout_dedup. Qed.
+Print Assumptions C08_free_resources_imply_handout.
+
+(* ... the same from the middle of a scan that still has such a task below its position ... *)
+Theorem C08_scan_reaches_free_task : forall cfg t q, dedup cfg = true -> t < nthr cfg ->
+  forall idx s k, reach cfg s -> tpc (thr s t) = D_try0 (InQ q idx) k ->
+  (exists j, j < idx /\ all_free cfg s (nth j (qitems (queues s q)) 0)) ->
+  eventually_handed cfg s t q.
+Proof. exact scan_reaches_free_task_dedup. Qed.
+Print Assumptions C08_scan_reaches_free_task.
+
+(* for any variant: it suffices that the free task's locks are different locks *)
+Theorem C08_free_resources_imply_handout_distinct : forall cfg s t q,
   reach cfg s -> t < nthr cfg ->
   tpc (thr s t) = Q_lock q \/ tpc (thr s t) = Q_trylock q ->
   qlk (queues s q) = None ->
   (exists j, j < length (qitems (queues s q)) /\ lockable cfg s (nth j (qitems (queues s q)) 0)) ->
   eventually_handed cfg s t q.
 Proof. exact free_resources_imply_handout. Qed.
-Print Assumptions C08_free_resources_imply_handout.
-
-(* ... the same from the middle of a scan that still has such a task below its position ... *)
-Theorem C08_scan_reaches_free_task : forall cfg t q, t < nthr cfg ->
-  forall idx s k, reach cfg s -> tpc (thr s t) = D_try0 (InQ q idx) k ->
-  (exists j, j < idx /\ lockable cfg s (nth j (qitems (queues s q)) 0)) ->
-  eventually_handed cfg s t q.
-Proof. exact scan_reaches_free_task. Qed.
-Print Assumptions C08_scan_reaches_free_task.
+Print Assumptions C08_free_resources_imply_handout_distinct.
 
 (* ... and the task so removed is what the call returns *)
 Theorem C08_handed_is_returned : forall cfg s t q k c, t < nthr cfg -> tpc (thr s t) = Q_unlock q (Some k) ->
@@ -205,12 +217,22 @@ Theorem C08_handed_is_returned : forall cfg s t q k c, t < nthr cfg -> tpc (thr 
 Proof. exact handed_is_returned. Qed.
 Print Assumptions C08_handed_is_returned.
 
-(* the side condition "the locks of a task are different locks" is necessary: a task that names
-   the same lock twice is never handed out by any queue under any schedule, even if nobody holds
-   that lock (this is how defect D2, the hydro step that hangs with one subgrid on a periodic
-   axis, shows up at the level of the containers) *)
-Theorem C08_same_lock_twice_never_returned : forall cfg s t c o k l, reach cfg s -> wf_choice s t c = true ->
-  dep0 cfg k = Some l -> dep1 cfg k = Some l ->
+(* a task that is given the same lock twice (one subgrid on a periodic axis, defect D2):
+   as repaired, it has ONE dependency (so it is handed out by the theorems above, with that lock,
+   and unlock_dependency releases that one lock) ... *)
+Theorem C08_same_lock_twice_is_one_dependency : forall cfg k l, dedup cfg = true ->
+  dep0 cfg k = Some l -> xdep1 cfg k = Some l -> deps cfg k = [l].
+Proof. exact same_lock_twice_is_one_dependency. Qed.
+Print Assumptions C08_same_lock_twice_is_one_dependency.
+
+Theorem C08_dependencies_distinct : forall cfg k, dedup cfg = true -> NoDup (deps cfg k).
+Proof. exact deps_nodup. Qed.
+Print Assumptions C08_dependencies_distinct.
+
+(* ... while at the pinned commit (second dependency stored as is) such a task was never handed
+   out by any queue under any schedule, even with the lock free: the repair was necessary *)
+Theorem C08_same_lock_twice_never_returned_pinned : forall cfg s t c o k l, reach cfg s -> wf_choice s t c = true ->
+  dedup cfg = false -> dep0 cfg k = Some l -> xdep1 cfg k = Some l ->
   e_ret (snd (step cfg s t c)) <> Some (o, RTask (Some k)).
-Proof. exact same_lock_twice_never_returned. Qed.
-Print Assumptions C08_same_lock_twice_never_returned.
+Proof. exact same_lock_twice_never_returned_pinned. Qed.
+Print Assumptions C08_same_lock_twice_never_returned_pinned.
